@@ -4,7 +4,7 @@
 set -uo pipefail
 . /verif/lib/env.sh
 SRC=$(readlink -f "$1"); shift
-NAME=$(echo "$SRC" | sed "s#^/tmp/##; s#^/verif/seeded/##; s#/out/#-#; s#/#-#g")
+NAME=$(echo "$SRC" | sed "s#^/tmp/##; s#^seed5/#r5-#; s#^/verif/seeded/##; s#/out/#-#; s#/#-#g")
 WT=/tmp/tryseed/$NAME
 mkdir -p /tmp/tryseed; flock /tmp/tryseed/.lock git -C /repo worktree remove --force "$WT" >/dev/null 2>&1; rm -rf "$WT"
 flock /tmp/tryseed/.lock git -C /repo worktree add --detach "$WT" HEAD >/dev/null 2>&1 || { echo "cannot create worktree"; exit 2; }
